@@ -466,31 +466,37 @@ func endToEnd(c *vk.Ctx) {
 				}
 			}
 		}
-		// distances on compressed vectors vs float32 distances
-		q := []float32{0.6, 0.2}
-		res, err := e.VSearchWithScores(ix, q, len(pts))
-		if err != nil || len(res) != len(pts) {
-			bad("search after compression incomplete "+target, fmt.Sprint(len(res), err))
-			continue
-		}
-		for _, r := range res {
-			ov := orig[r.ID]
-			var d32 float64
-			if metric == "euclidean" {
-				d32, _ = refEuclid(q, ov)
-			} else {
-				qn := math.Sqrt(float64(q[0]*q[0] + q[1]*q[1]))
-				dot := (float64(q[0])*float64(ov[0]) + float64(q[1])*float64(ov[1])) / qn
-				d32 = 1 - dot
+		// distances on compressed vectors vs float32 distances, for queries of several magnitudes
+		// (cosine distance does not depend on the length of the query)
+		for _, scale := range []float32{1, 0.5, 8, 0.02, 100} {
+			q := []float32{0.6 * scale, 0.2 * scale}
+			if metric == "euclidean" && scale != 1 {
+				continue
 			}
-			sim32 := 1 / (1 + d32)
-			bound := 0.01
-			if target == "int8" {
-				bound = 0.03
+			res, err := e.VSearchWithScores(ix, q, len(pts))
+			if err != nil || len(res) != len(pts) {
+				bad("search after compression incomplete "+target, fmt.Sprint(len(res), err))
+				continue
 			}
-			n++
-			if r.Breakdown != nil && math.Abs(r.Breakdown.Similarity-sim32) > bound {
-				bad("compressed distance deviates beyond the rounding bound "+target, fmt.Sprintf("%s: similarity %g, float32 similarity %g", r.ID, r.Breakdown.Similarity, sim32))
+			for _, r := range res {
+				ov := orig[r.ID]
+				var d32 float64
+				if metric == "euclidean" {
+					d32, _ = refEuclid(q, ov)
+				} else {
+					qn := math.Sqrt(float64(q[0])*float64(q[0]) + float64(q[1])*float64(q[1]))
+					dot := (float64(q[0])*float64(ov[0]) + float64(q[1])*float64(ov[1])) / qn
+					d32 = 1 - dot
+				}
+				sim32 := 1 / (1 + d32)
+				bound := 0.01
+				if target == "int8" {
+					bound = 0.03
+				}
+				n++
+				if r.Breakdown != nil && math.Abs(r.Breakdown.Similarity-sim32) > bound {
+					bad("compressed distance deviates beyond the rounding bound "+target, fmt.Sprintf("%s query x%g: similarity %g, float32 similarity %g", r.ID, scale, r.Breakdown.Similarity, sim32))
+				}
 			}
 		}
 	}
@@ -636,53 +642,58 @@ func arenaPart(c *vk.Ctx) {
 		depth = 5
 	}
 	var n int64
-	for d := 1; d <= depth; d++ {
-		idx := make([]int, d)
-		for {
-			if c.Mine() {
-				seq := make([]aop, d)
-				for i, j := range idx {
-					seq[i] = ops[j]
-				}
-				n++
-				c.State(1)
-				c.Trans(int64(d))
-				c.DistinctKey(fmt.Sprint(seq))
-				if n%997 == 1 {
-					c.Sample(fmt.Sprint(seq))
-				}
-				if p := runArena(seq); p != "" {
-					c.Outcome("violation")
-					// shrink
-					min := append([]aop(nil), seq...)
-					for i := 0; i < len(min); {
-						cand := append(append([]aop(nil), min[:i]...), min[i+1:]...)
-						if p2 := runArena(cand); p2 != "" {
-							min, p = cand, p2
-						} else {
-							i++
-						}
+	// every sequence is also run from two non-initial states (two / four ids allocated, the
+	// second spanning two chunks): the interesting transitions need a populated arena first
+	prefixes := [][]aop{nil, {{"alloc", 0}, {"alloc", 1}}, {{"alloc", 0}, {"alloc", 1}, {"alloc", 2}, {"alloc", 3}}}
+	for _, prefix := range prefixes {
+		for d := 1; d <= depth; d++ {
+			idx := make([]int, d)
+			for {
+				if c.Mine() {
+					seq := append([]aop(nil), prefix...)
+					for _, j := range idx {
+						seq = append(seq, ops[j])
 					}
-					c.Violate(fmt.Sprintf("C18 arena seq=%v", min), p, map[string]any{"property": "C18", "harness": "c18", "part": "arena", "seq": fmt.Sprint(min)})
-				} else {
-					c.Outcome(fmt.Sprintf("ok depth=%d", d))
+					n++
+					c.State(1)
+					c.Trans(int64(len(seq)))
+					c.DistinctKey(fmt.Sprint(seq))
+					if n%997 == 1 {
+						c.Sample(fmt.Sprint(seq))
+					}
+					if p := runArena(seq); p != "" {
+						c.Outcome("violation")
+						// shrink
+						min := append([]aop(nil), seq...)
+						for i := 0; i < len(min); {
+							cand := append(append([]aop(nil), min[:i]...), min[i+1:]...)
+							if p2 := runArena(cand); p2 != "" {
+								min, p = cand, p2
+							} else {
+								i++
+							}
+						}
+						c.Violate(fmt.Sprintf("C18 arena seq=%v", min), p, map[string]any{"property": "C18", "harness": "c18", "part": "arena", "seq": fmt.Sprint(min)})
+					} else {
+						c.Outcome(fmt.Sprintf("ok depth=%d", d))
+					}
+					if c.TimeUp() {
+						c.Eval(n)
+						return
+					}
 				}
-				if c.TimeUp() {
-					c.Eval(n)
-					return
+				p := d - 1
+				for p >= 0 {
+					idx[p]++
+					if idx[p] < len(ops) {
+						break
+					}
+					idx[p] = 0
+					p--
 				}
-			}
-			p := d - 1
-			for p >= 0 {
-				idx[p]++
-				if idx[p] < len(ops) {
+				if p < 0 {
 					break
 				}
-				idx[p] = 0
-				p--
-			}
-			if p < 0 {
-				break
 			}
 		}
 	}
